@@ -494,6 +494,44 @@ Section WriterProofs.
   Qed.
 End WriterProofs.
 
+Lemma Forall2_compose {X} (P Q R : X -> X -> Prop) :
+  (forall o1 w1 o2 w2, P o1 w1 -> P o2 w2 -> Q w1 w2 -> R o1 o2) ->
+  forall o1s w1s, Forall2 P o1s w1s -> forall o2s w2s, Forall2 P o2s w2s ->
+  Forall2 Q w1s w2s -> Forall2 R o1s o2s.
+Proof.
+  intros H o1s w1s H1. induction H1 as [|o1 w1 o1s w1s Hp _ IH]; intros o2s w2s H2 Hq.
+  - inversion Hq; subst. inversion H2; subst. constructor.
+  - inversion Hq as [|? w2 ? w2s' Hq1 Hq2]; subst. inversion H2 as [|o2 ? o2s' ? Hp2 H2']; subst.
+    constructor; eauto.
+Qed.
+
+(** With DropDuplicatedRows the keys of a file do not depend on the size of the
+    sort runs, on the sort routine, on the merge, on the batching or on what the
+    writer wrote before: two writers, two histories -- if the rows written to
+    the k-th closed files carry the same keys, the k-th files carry equal keys
+    at equal positions. *)
+Definition same_keys {A : Type} (cmp : A -> A -> Z) (w1 w2 : list A) : Prop :=
+  (forall a, In a w1 -> exists b, In b w2 /\ cmp a b = 0%Z) /\
+  (forall b, In b w2 -> exists a, In a w1 /\ cmp b a = 0%Z).
+
+Theorem sorting_writer_dedupe_independent (A : Type) (cmp : A -> A -> Z) :
+  (forall a b, (cmp a b < 0 <-> cmp b a > 0)%Z) ->
+  (forall a b d, (cmp a b <= 0 -> cmp b d <= 0 -> cmp a d <= 0)%Z) ->
+  forall sortf1 merge1 maxrows1 ops1 sortf2 merge2 maxrows2 ops2,
+  1 <= maxrows1 -> sort_contract A cmp sortf1 -> merge_contract A cmp merge1 ->
+  1 <= maxrows2 -> sort_contract A cmp sortf2 -> merge_contract A cmp merge2 ->
+  Forall2 (same_keys cmp) (sw_written A [] ops1) (sw_written A [] ops2) ->
+  Forall2 (Forall2 (fun a b => cmp a b = 0%Z))
+          (sw_run A cmp sortf1 merge1 maxrows1 true false ops1)
+          (sw_run A cmp sortf2 merge2 maxrows2 true false ops2).
+Proof.
+  intros Ho Ht sortf1 merge1 maxrows1 ops1 sortf2 merge2 maxrows2 ops2 M1 S1 G1 M2 S2 G2 Hw.
+  assert (H1 := sorting_writer_dedupe_one_per_key A cmp Ho Ht sortf1 merge1 maxrows1 M1 S1 G1 ops1).
+  assert (H2 := sorting_writer_dedupe_one_per_key A cmp Ho Ht sortf2 merge2 maxrows2 M2 S2 G2 ops2).
+  refine (Forall2_compose (out_dedupe A cmp) (same_keys cmp) _ _ _ _ H1 _ _ H2 Hw).
+  intros o1 w1 o2 w2 P1 P2 [Q1 Q2]. exact (out_dedupe_unique A cmp Ho Ht o1 w1 o2 w2 P1 P2 Q1 Q2).
+Qed.
+
 (** ** the contract of sort.Sort on the RowBuffer gives [sort_contract] *)
 Section RowBufferSort.
   Variable A : Type.
@@ -606,9 +644,9 @@ Proof.
   intros Ho Ht Hb st Hs. unfold mergek_all.
   destruct (mergek cmp st (chunks st) (repeat b (length (concat st) + 2))) as [[outs eof] m'] eqn:E.
   assert (Eof : eof = true).
-  { apply (Merge.ProgressProofs.mergek_terminates A cmp Ho Ht st (chunks st) _ outs eof m' Hs); auto.
+  { eapply (Merge.ProgressProofs.mergek_terminates A cmp Ho Ht); [exact Hs| | |exact E].
     - apply Forall_forall. intros n Hn. apply repeat_spec in Hn. subst n. exact Hb.
     - rewrite repeat_length. lia. }
-  destruct (Merge.TreeProofs.mergek_refines A cmp Ho Ht st (chunks st) _ outs eof m' Hs E) as [R1 R2].
+  destruct (Merge.TreeProofs.mergek_refines A cmp Ho Ht _ _ _ _ _ _ Hs E) as [R1 R2].
   cbn [fst]. eexists. split; [exact R1|exact (R2 Eof)].
 Qed.
